@@ -100,7 +100,7 @@ package ir
 //@ # neither 0 nor the next number is rejected and nothing changes; otherwise it gets the next number,
 //@ # and SetID is not called when it carries that number already.
 //@ func (*Module).AssignGlobalIDs$1
-//@   props C08 C13
+//@   props C08 C13 C03
 //@   requires n != nil && id >= 0 && nvid(n) >= 0
 //@   assigns id, ghost(nvid, n), ghost(idwrites, 0)
 //@   ensures !nvun(n) ==> result == nil && id == old(id) && nvid(n) == old(nvid(n)) && idwrites(0) == old(idwrites(0))
@@ -108,7 +108,7 @@ package ir
 //@   ensures nvun(n) && (old(nvid(n)) == 0 || old(nvid(n)) == old(id)) ==> result == nil && id == old(id) + 1 && nvid(n) == old(id)
 //@   ensures old(nvid(n)) == old(id) ==> idwrites(0) == old(idwrites(0))
 //@ func (*Func).AssignIDs$1
-//@   props C08 C13
+//@   props C08 C13 C03
 //@   requires n != nil && f != nil && f.GlobalID >= 0 && id >= 0 && nvid(n) >= 0
 //@   assigns id, ghost(nvid, n), ghost(idwrites, 0)
 //@   ensures !nvun(n) ==> result == nil && id == old(id) && nvid(n) == old(nvid(n)) && idwrites(0) == old(idwrites(0))
@@ -130,7 +130,7 @@ package ir
 //@ # wfGlobalIDs(m): the entities are non-nil, pairwise distinct and carry non-negative IDs
 //@ macro wfGlobalIDs(m *Module) bool = forall(k, 0, len(m.Globals), m.Globals[k] != nil && nvid(m.Globals[k]) >= 0) && forall(k, 0, len(m.Aliases), m.Aliases[k] != nil && nvid(m.Aliases[k]) >= 0) && forall(k, 0, len(m.IFuncs), m.IFuncs[k] != nil && nvid(m.IFuncs[k]) >= 0) && forall(k, 0, len(m.Funcs), m.Funcs[k] != nil && nvid(m.Funcs[k]) >= 0) && forall(i int, j int, 0 <= i && i < j && j < len(m.Globals) ==> m.Globals[i] != m.Globals[j]) && forall(i int, j int, 0 <= i && i < j && j < len(m.Aliases) ==> m.Aliases[i] != m.Aliases[j]) && forall(i int, j int, 0 <= i && i < j && j < len(m.IFuncs) ==> m.IFuncs[i] != m.IFuncs[j]) && forall(i int, j int, 0 <= i && i < j && j < len(m.Funcs) ==> m.Funcs[i] != m.Funcs[j]) && forall(i int, j int, 0 <= i && i < len(m.Globals) && 0 <= j && j < len(m.Aliases) ==> m.Globals[i] != m.Aliases[j]) && forall(i int, j int, 0 <= i && i < len(m.Globals) && 0 <= j && j < len(m.IFuncs) ==> m.Globals[i] != m.IFuncs[j]) && forall(i int, j int, 0 <= i && i < len(m.Globals) && 0 <= j && j < len(m.Funcs) ==> m.Globals[i] != m.Funcs[j]) && forall(i int, j int, 0 <= i && i < len(m.Aliases) && 0 <= j && j < len(m.IFuncs) ==> m.Aliases[i] != m.IFuncs[j]) && forall(i int, j int, 0 <= i && i < len(m.Aliases) && 0 <= j && j < len(m.Funcs) ==> m.Aliases[i] != m.Funcs[j]) && forall(i int, j int, 0 <= i && i < len(m.IFuncs) && 0 <= j && j < len(m.Funcs) ==> m.IFuncs[i] != m.Funcs[j])
 //@ func (*Module).AssignGlobalIDs
-//@   props C08 C13
+//@   props C08 C13 C03
 //@   requires m != nil && wfGlobalIDs(m)
 //@   assigns ghost(nvid), ghost(idwrites, 0), ghost(held, addr(m.mu))
 //@   # success: every unnamed entity carries its rank; named ones are never touched
@@ -219,7 +219,7 @@ package ir
 //@ ghost wb(n namedVar) int
 //@ ghost wj(n namedVar) int
 //@ func (*Func).AssignIDs
-//@   props C08 C13
+//@   props C08 C13 C03
 //@   requires f != nil && f.GlobalID >= 0
 //@   requires forall(k, 0, len(f.Params), f.Params[k] != nil && nvid(f.Params[k]) >= 0 && wk(f.Params[k]) == 0 && wj(f.Params[k]) == k)
 //@   requires forall(b, 0, len(f.Blocks), f.Blocks[b] != nil && nvid(f.Blocks[b]) >= 0 && wk(f.Blocks[b]) == 1 && wb(f.Blocks[b]) == b)
@@ -294,7 +294,7 @@ package ir
 //@ # ---------------------------------------------------------------- C07 ---
 //@ # getIndex: the same contract for every copy (macros in specs/llvm_gep.spec).
 //@ func getIndex
-//@   props C07
+//@   props C07 C03
 //@   requires index != nil && gkind(gunwrap(index)) && gwf(gunwrap(index))
 //@   assigns nothing
 //@   ensures !result.Scalable
@@ -403,14 +403,14 @@ package ir
 //@ # gepInstType classifies the operands and applies gep.ResultType; its result obeys LLVM's rule stated
 //@ # over the operands themselves (gepPre/gepPost, specs/llvm_gep.spec).
 //@ func gepInstType
-//@   props C07
+//@   props C07 C03
 //@   requires gepPre(elemType, src, indices)
 //@   assigns caches
 //@   ensures gepPost(result, elemType, src, indices, old(gwalkV(elemType, indices, len(indices))))
 //@   loop 0: invariant 0 <= range_i && range_i <= len(indices) && len(idxs) == range_i && (cap(idxs) == 0 || fresh(idxs)) && gpaired(idxs, indices)
 //@   loop 0: invariant forall(k, 0, range_i, idxs[k].HasVal == gvHas(indices[k]) && idxs[k].Val == gvVal(indices[k]) && idxs[k].VectorLen == gvLen(indices[k]) && idxs[k].Scalable == gvSc(indices[k]))
 //@ func (*InstGetElementPtr).Type
-//@   props C06 C07 C14
+//@   props C06 C07 C14 C03
 //@   requires inst != nil && inst.Src != nil && gepPre(inst.ElemType, vtype(inst.Src), inst.Indices)
 //@   requires inst.Typ == nil || gepPost(inst.Typ, inst.ElemType, vtype(inst.Src), inst.Indices, gwalkV(inst.ElemType, inst.Indices, len(inst.Indices)))
 //@   assigns caches
